@@ -76,6 +76,15 @@ func (r *rewriter) rewritePkgCall(c *astutil.Cursor, x *ast.CallExpr, pkg, fn st
 		x.Fun = sos("SignalNotify")
 	case pkg == "os/signal":
 		unsup(r.fset, x.Pos(), "os/signal."+fn)
+	case pkg == "context" && fn == "AfterFunc":
+		// the standard library would run the callback in a goroutine of its own
+		r.changed = true
+		r.useRT = true
+		stats["afterfunc"]++
+		x.Fun = rt("AfterFuncCtx")
+		x.Args = append(x.Args, site)
+	case pkg == "time" && fn == "AfterFunc":
+		unsup(r.fset, x.Pos(), "time.AfterFunc (callback goroutine outside the scheduler)")
 	case pkg == "runtime" && fn == "NumCPU":
 		// tuning knob: pool sizes derived from the CPU count are randomised per simulated process
 		r.markOS("numcpu")
